@@ -6,6 +6,7 @@ polynomial grows past a size limit. Branching on a non-constant value is not sup
 analysed code (AIR constraint evaluation, opcode tables, small integer helpers) is branch-free in the data.
 This is constant propagation plus expression reconstruction; no solver, no path conditions."""
 import copy, re
+from .facts import strip_targs
 
 P = 2**64 - 2**32 + 1
 R_INV = pow(2**64, -1, P)
@@ -389,11 +390,21 @@ class SlicePtr:
         return self.c[self.start:self.start + self.len]
 
 
+class StrVal:
+    """symbolic string: a list of symbolic bytes of fixed length (a &str is represented by the value itself)"""
+    def __init__(self, bytes_):
+        self.b = list(bytes_)
+
+    def __repr__(self):
+        return "str%r" % (self.b,)
+
+
 class FnRef:
-    __slots__ = ("id", "decl", "res", "ga")
+    __slots__ = ("id", "xid", "decl", "res", "ga")
 
     def __init__(self, d):
         self.id, self.decl, self.res, self.ga = d["fn"], d["decl"], d["res"], d.get("ga", [])
+        self.xid = d.get("fnx", d["fn"])      # exact id (with trait type arguments): key of Facts.fns
 
 
 class Opaque:
@@ -658,7 +669,7 @@ class Interp:
                 v = cur.get()
                 if isinstance(v, (Ptr, SlicePtr)):
                     cur = v
-                elif isinstance(v, Opaque):
+                elif isinstance(v, (Opaque, StrVal)):
                     cur = Ptr([v], 0)
                 else:
                     raise Unanalysable("deref of non-pointer %r" % (v,))
@@ -1010,23 +1021,29 @@ class Interp:
         if not isinstance(f, FnRef):
             raise Unanalysable("indirect call through %r" % (f,))
         m = None
+        sid = f.id
         for rx, mm in self.overrides:
-            if rx.search(f.id):
+            if rx.search(sid):
                 m = mm
                 break
         if m is None:
-            m = self.models.get(f.id) or self.models.get(f.decl)
+            m = self.models.get(sid) or self.models.get(f.decl)
         if m is None:
             for suffix, mm in self.suffix_models:
-                if f.id.endswith(suffix) or f.decl.endswith(suffix):
+                if sid.endswith(suffix) or f.decl.endswith(suffix):
                     m = mm
                     break
         if m is not None:
             return m(self, argv, f)
-        if f.id in self.F.fns and f.res != "trait":
+        mc = re.match(r"^(.*)::(\w+)::\{constructor#0\}$", f.id)
+        if mc:
+            if mc.group(1) in self.F.adts:
+                return Agg(list(argv), "adt", mc.group(1), mc.group(2))
+            return Agg(list(argv), "adt", mc.group(1) + "::" + mc.group(2), mc.group(2))
+        if f.xid in self.F.fns and f.res != "trait":
             self.ga_stack.append(f.ga)
             try:
-                return self.call(f.id, argv)
+                return self.call(f.xid, argv)
             finally:
                 self.ga_stack.pop()
         # an unresolved trait call with a closure / fn receiver
@@ -1252,6 +1269,18 @@ def install_models(I):
     S.append(("fmt::rt::Argument::new_debug", lambda I, a, f: Opaque("fmtarg")))
     S.append(("fmt::Arguments::from_str_nonconst", lambda I, a, f: Opaque("fmt")))
 
+    def rng_contains(I, a, f):
+        r, v = deref(a[0]), deref(a[1])
+        kind = r.adt.rsplit("::", 1)[-1] if isinstance(r, Agg) and r.adt else "?"
+        if isinstance(v, int) and all(isinstance(x, int) for x in r.items[:2]):
+            lo, hi = r.items[0], r.items[1]
+            return lo <= v <= hi if kind == "RangeInclusive" else lo <= v < hi
+        return Term("in_range", v, kind, *r.items[:2])
+    S.append(("ops::range::RangeInclusive::contains", rng_contains))
+    S.append(("ops::range::Range::contains", rng_contains))
+    S.append(("RangeBounds::contains", rng_contains))
+    M["core::ops::range::RangeInclusive::new"] = lambda I, a, f: Agg([a[0], a[1]], "adt", "core::ops::range::RangeInclusive", "RangeInclusive")
+
     def last(I, a, f):
         d = slice_of(I, a[0])
         return some(d.at(d.len - 1)) if d.len else none()
@@ -1336,12 +1365,18 @@ def install_models(I):
     def collect(I, a, f):
         it = as_iter(I, a[0])
         out = []
+        into_result = len(f.ga) >= 2 and re.match(r"^(std|core)::result::Result<", f.ga[1] or "")
         while True:
             v = it.next()
             if v is StopIteration:
                 break
+            if into_result and isinstance(v, Agg) and v.adt and v.adt.endswith("Result"):
+                if v.variant == "Err":
+                    return v
+                v = v.items[0]
             out.append(v)
-        return Agg(out, "vec")
+        res = Agg(out, "vec")
+        return Agg([res], "adt", "core::result::Result", "Ok") if into_result else res
     M["core::iter::traits::iterator::Iterator::collect"] = collect
 
     def fold_sum(I, a, f):
